@@ -1787,13 +1787,44 @@ macro_rules! vec_impl_vec {
         /// Consuming iterator over this module's vector type.
         // Can't (De)Serialize a ManuallyDrop<T>
         //#[cfg_attr(feature="serde", derive(Serialize, Deserialize))]
-        #[derive(Debug, Hash, PartialEq, Eq)]
+        // NOTE: Debug, Hash and PartialEq must not be derived: they would read slots that were already yielded.
         pub struct IntoIter<T> {
             // NOTE: Use a CVec and not $Vec; repr_simd vectors can't monomorphize ManuallyDrop<T>.
             vector: CVec<ManuallyDrop<T>>,
             start: usize,
             end: usize,
         }
+
+        impl<T> IntoIter<T> {
+            /// The elements that have not been yielded yet.
+            fn as_slice(&self) -> &[T] {
+                let live = &self.vector[self.start .. self.end];
+                // ManuallyDrop<T> is repr(transparent), and only these slots are still owned by the iterator.
+                unsafe {
+                    slice::from_raw_parts(live.as_ptr() as *const T, live.len())
+                }
+            }
+        }
+
+        impl<T: fmt::Debug> fmt::Debug for IntoIter<T> {
+            fn fmt(&self, f: &mut Formatter) -> fmt::Result {
+                f.debug_tuple("IntoIter").field(&self.as_slice()).finish()
+            }
+        }
+
+        impl<T: std::hash::Hash> std::hash::Hash for IntoIter<T> {
+            fn hash<H: std::hash::Hasher>(&self, state: &mut H) {
+                self.as_slice().hash(state)
+            }
+        }
+
+        impl<T: PartialEq> PartialEq for IntoIter<T> {
+            fn eq(&self, other: &Self) -> bool {
+                self.as_slice() == other.as_slice()
+            }
+        }
+
+        impl<T: Eq> Eq for IntoIter<T> {}
 
         // NOTE: Be careful to only drop elements that weren't yielded.
         impl<T> Drop for IntoIter<T> {
